@@ -146,6 +146,41 @@ let run_dec id rest =
       (int_of_n si.Flac.i_min_block) (int_of_n si.Flac.i_max_block) (int_of_n si.Flac.i_min_frame) (int_of_n si.Flac.i_max_frame)
       (hex_of_bytes si.Flac.i_md5) (if lens = "" then "-" else lens) (fmt_z_list samples)
 
+(* ---- CNT: count_bits vs written bits ---- *)
+let parse_n_list (s : string) : coq_N list =
+  if s = "-" then [] else Stdlib.List.map (fun x -> n_of_u64_string x) (split_on ',' s)
+
+(* Residual::verify as far as the generator can violate it: remainders below 2^p *)
+let run_cnt id rest =
+  match split_on ' ' rest with
+  | ["R"; order; block; warmup; params; quot; rem] ->
+    let n s = n_of_int (int_of_string s) in
+    let r = { Rice.r_order = n order; r_block = n block; r_warmup = n warmup; r_params = parse_n_list params;
+              r_quot = parse_n_list quot; r_rem = parse_n_list rem } in
+    let cnt = Component.residual_count_bits r in
+    let written = OpsLen.ops_len N0 (Component.residual_ops r) in
+    Printf.sprintf "%s ok count=%s written=%s" id (dec_of_n cnt) (dec_of_n written)
+  | ["H"; block; chtag; bps; rate; kind; num] ->
+    let n s = n_of_int (int_of_string s) in
+    let chtag = int_of_string chtag in
+    let ch = if chtag < 8 then Codes.Indep (n_of_int (chtag + 1)) else if chtag = 8 then Codes.LeftSide else if chtag = 9 then Codes.RightSide else Codes.MidSide in
+    if (Codes.sample_rate_code (n rate)).Codes.c_tag = N0 || int_of_string block > 32767 then id ^ " err" else
+    (match Codes.block_size_code (n block) with
+     | Ok bc ->
+       let h = { Component.h_variable = (kind = "S"); h_bs = bc; h_block = n block; h_ch = ch;
+                 h_ss_tag = Codes.sample_size_tag (n bps); h_sr = Codes.sample_rate_code (n rate); h_number = n_of_u64_string num } in
+       (match Component.header_ops h with
+        | Ok ops ->
+          (match Component.pack KU8 ops, Component.pack KU64 ops with
+           | Ok a, Ok b ->
+             Printf.sprintf "%s ok count=%d written=%d written64=%d %s same=%d" id (int_of_n (Component.header_count_bits h))
+               (8 * Stdlib.List.length a) (8 * Stdlib.List.length b) (hex_of_bytes a) (if a = b then 1 else 0)
+           | _ -> id ^ " panic")
+        | Err _ -> Printf.sprintf "%s write-err count=%d" id (int_of_n (Component.header_count_bits h))
+        | Panic _ -> id ^ " panic")
+     | _ -> id ^ " panic")
+  | _ -> id ^ " bad-case"
+
 let run_line (line : string) : string =
   match split_on ' ' line with
   | stream :: id :: _ ->
@@ -156,6 +191,7 @@ let run_line (line : string) : string =
        | "SINK" -> run_sink id rest
        | "ENC" -> run_enc id rest
        | "DEC" -> run_dec id rest
+       | "CNT" -> run_cnt id rest
        | _ -> id ^ " unknown-stream")
      with Stack_overflow -> id ^ " model-stack-overflow")
   | _ -> "bad-line"
